@@ -36,17 +36,30 @@ func init() {
 func (c09) ID() string             { return "C09" }
 func (c09) Race() bool             { return true }
 func (c09) CaseTimeout(string) int { return 300 }
-func (c09) NumCases(tier string) int {
+
+// the cases [0, baseCases) are the three kinds over internal/fed layouts (by index mod 5); the cases
+// appended after them are determinism cases over the multi-key layouts of multikey.go
+func baseCases(tier string) int {
 	if tier == fw.Thorough {
 		return 2400
 	}
 	return 160
 }
 
+func mkCases(tier string) int {
+	if tier == fw.Thorough {
+		return 480
+	}
+	return 32
+}
+
+func (c09) NumCases(tier string) int { return baseCases(tier) + mkCases(tier) }
+
 func (c09) Rule() string {
 	return "Inputs as in C01: generated federation layout (2-3 subgraphs, entities with keys, @requires, @provides, @shareable, interfaces, unions, mutations) x valid-by-construction operations x coercible variables, executed by real ExecutionEngines whose subgraphs are in-process semantic servers over one hash-defined universe and whose transport records every subgraph request. Half of the operations are amplified (object-valued root fields repeated under fresh aliases: what minification, multi-fetch merging act on) and, where the schema allows, get a pair of twin fragments (... on A { f {..} } ... on B { f {..} } under an abstract field: what fetch de-duplication acts on). Case kinds by index mod 5. " +
 		"DETERMINISM (0,1): " + fmt.Sprint(detOps) + " operations on " + fmt.Sprint(detEngines) + " engines built freshly from the same configuration (default options for kind 0, the case's option set for kind 1; run-time single flight off so that the transport sees exactly what the plan yields), each executing the operations in a different order (so every operation is planned by an engine without history and by one with previous plans); compared per operation: normalised operation text (premise), the multiset of subgraph requests (subgraph, exact operation text, variables as JSON value; separately the exact request bodies) and the exact response bytes. A difference of the requests on the wire is attributed to planning only if each engine reproduces its own request multiset in " + fmt.Sprint(selfRepeats) + " further executions of its (then cached) plan; otherwise it is run-time variation of ONE plan (counted and listed, not a planning matter). Then the normalised operation is re-parsed and planned directly with plan.Planner (+ postprocess, query plans included) by two fresh planners over one configuration object, a fresh planner over a second configuration object built from the same layout, one re-used planner that plans all operations of the case forwards and then backwards (every operation twice, with different histories) and a diagnostic twin of it whose Visitor maps the harness empties before each plan - under the default option set and the case's option set; a canonical reflection dump of the whole plan (response tree, fetch tree incl. fetch inputs, variables, post-processing, dependencies; every field, exported or not; data source instances and traces opaque) and the printed FetchTreeNode.QueryPlan must be identical. Every fourth determinism case also recomputes everything in a NEW PROCESS (same binary, fresh hash seeds) and compares. Each operation is also planned once under every single option to count how often the option changes the plan at all (live_* counters). " +
 		"TRANSPARENCY sequential (2,3) / concurrent (4): one shared engine built with option set O (the 16 subsets of {fetch de-duplication off, multi-fetch merging on, DAG scheduling on, subgraph-operation minification on} enumerated by case ordinal) serves a history of 15-30 requests: " + fmt.Sprint(seqOps) + " base operations each repeated 2-3 times, plus per base operation: same text with other variable values, all variables renamed, a literal turned into a variable, a fragment-structure variant (same plan-cache key by design), an invalid operation and an invalid variables object (must be refused alike), shuffled. Every response (exact bytes; or the error text when Execute fails) must equal the response of a FRESH default-options engine that serves only that single request; a variable-renamed request must get the bytes of its original. Plan-cache hits are detected per request (cached plan count unchanged by a successful request) in the sequential kind and bounded from below (successful requests - cached plans) in the concurrent kind, where " + fmt.Sprint(concWorkers) + " goroutines issue permutations of the history simultaneously under the race detector. " +
+		"MULTI-KEY DETERMINISM (the cases appended after the first 160/2400): PRNG-parameterised layouts of this package (multikey.go) in which one entity has three keys and every subgraph knows only some of them - root subgraph k1, target subgraph k3, 2-3 bridge subgraphs (k1+k3; chains k1+k2 / k2+k3; mixed key sets), controls with a direct jump or a single best route; names, key names and types, field owners and the REGISTRATION ORDER of the data sources are drawn - served by semantic subgraphs that identify an entity by any key they know (fixed bijection between the keys); 4 operations per layout that need the target's fields; the same determinism oracle (fresh engines, fresh / re-used / twin planners, new process every third case). In the sequential/concurrent kinds every operation with a field selected on the interface and again under one concrete type is also answered by a fresh engine with ONLY fetch de-duplication off and compared with the default engine (universe seed chosen among 8 so that a parent outside that type is in the data). " +
 		"Non-trivial = determinism: an operation with >=2 subgraph requests incl. >=1 _entities request compared on all engines and planners; transparency: >=1 cache-served response compared and >=1 operation with >=2 subgraph requests. Distinct by hash of (layout, operation, variables) resp. (layout, option set, history)."
 }
 
@@ -80,6 +93,8 @@ func (c09) RequiredCounters(string) []string {
 		"effect_multifetch_merged_request", "effect_minified_request",
 		"live_multifetch_changes_plan", "live_schedule_changes_plan", "live_minify_changes_plan",
 		"reference_engines",
+		"mk_cases", "mk_layouts_with_tied_indirect_routes", "mk_control_layouts", "mk_operations_routed_through_a_bridge",
+		"mk_operations_with_tied_indirect_routes", "mk_control_operations_direct_jump", "mk_clean_responses",
 	}
 }
 
@@ -167,19 +182,47 @@ type request struct {
 	// directive-values: the first flipped @skip/@include variable and its value in the base request
 	FlipVar  string
 	FlipFrom bool
+	// the operation carries  tw: abstractField { __typename F {..} ... on T { F {..} } }  (T, F)
+	TwinScopedTo, TwinField string
 }
 
 func (q *request) key() string { return fw.HashKey(q.Text, q.Vars) }
 
 type input struct {
+	// family-independent description of the configuration (what the determinism oracle needs)
+	family   string // "fed" = layouts of internal/fed; "mk" = multi-key layouts of this package (multikey.go)
+	superSDL string
+	describe string
+	feat     string
+	subs     []subDesc
+	ident    []any                        // what identifies the configuration across processes
+	mk       func(mask int) (*rig, error) // builds a fresh engine over the configuration with the option set
+	ops      []*request
+	// fed family only
 	prof     fed.Profile
 	l        *fed.Layout
 	superGql *gast.Schema
 	u        *ref.Universe
-	ops      []*request
 	skipped  int
 	twins    int
+	// a universe under which a scoped/unscoped twin has a parent outside the fragment's type was found
+	favourable bool
+	// mk family only
+	mkInfo *mkLayout
 }
+
+type subDesc struct{ Name, SDL string }
+
+// rig is one real ExecutionEngine over a configuration, with access to the log of the subgraph
+// requests its transport has seen.
+type rig struct {
+	Engine *engine.ExecutionEngine
+	reset  func()
+	log    func() ([]reqRec, int, []string)
+	close  func()
+}
+
+func (g *rig) Close() { g.close() }
 
 func varsJSON(vals map[string]*gen.Val) []byte {
 	m := map[string]any{}
@@ -208,6 +251,17 @@ func genInput(r *rand.Rand, nOps int, directiveVar bool) (*input, error) {
 		ents[e] = true
 	}
 	in.u = &ref.Universe{Seed: r.Uint64(), Schema: sg, NullRate: 2, Entities: ents, PoolSize: 4, MaxList: 2}
+	in.family, in.superSDL, in.describe, in.feat = "fed", in.l.SuperSDL, in.l.Describe, featureString(in.prof)
+	// (Layout.Describe is a human-readable text built by ranging over maps: not part of the identity)
+	in.ident = []any{in.l.SuperSDL, in.u.Seed}
+	for _, sub := range in.l.Subgraphs {
+		meta, _ := json.Marshal(sub.Meta)
+		in.ident = append(in.ident, sub.Name, sub.SDL, meta)
+		in.subs = append(in.subs, subDesc{sub.Name, sub.SDL})
+	}
+	fc, _ := json.Marshal(in.l.FieldConfigs)
+	in.ident = append(in.ident, fc)
+	in.mk = func(mask int) (*rig, error) { return fedRig(in, mask) }
 	for k := 0; k < nOps; k++ {
 		var q *request
 		for attempt := 0; attempt < 12 && q == nil; attempt++ {
@@ -219,13 +273,15 @@ func genInput(r *rand.Rand, nOps int, directiveVar bool) (*input, error) {
 				op.Kind = "mutation"
 			}
 			doc, vals := gen.GenOperation(r, in.l.Super, op)
+			twinScopedTo, twinField := "", ""
 			if r.IntN(2) == 0 {
 				amplify(r, doc)
 			}
 			if op.Kind != "mutation" && r.IntN(2) == 0 {
-				if x := twinFragments(r, in.l.Super); x != nil {
+				if x, scopedTo, field := twinFragments(r, in.l.Super); x != nil {
 					doc.Ops[0].Sel = append(doc.Ops[0].Sel, x)
 					in.twins++
+					twinScopedTo, twinField = scopedTo, field
 				}
 			}
 			if directiveVar && r.IntN(4) != 0 {
@@ -235,7 +291,7 @@ func genInput(r *rand.Rand, nOps int, directiveVar bool) (*input, error) {
 				in.skipped++
 				continue // open finding C01-F1, judged by C01
 			}
-			q = &request{Doc: doc, Vals: vals, Text: doc.String(), Vars: varsJSON(vals), Tag: "base", Base: k}
+			q = &request{Doc: doc, Vals: vals, Text: doc.String(), Vars: varsJSON(vals), Tag: "base", Base: k, TwinScopedTo: twinScopedTo, TwinField: twinField}
 			if _, gerrs := gqlparser.LoadQuery(sg, q.Text); gerrs != nil {
 				return nil, fmt.Errorf("operation self-check: %v\n%s", gerrs, q.Text)
 			}
@@ -244,7 +300,62 @@ func genInput(r *rand.Rand, nOps int, directiveVar bool) (*input, error) {
 			in.ops = append(in.ops, q)
 		}
 	}
+	if directiveVar {
+		in.favourableUniverse()
+	}
 	return in, nil
+}
+
+// favourableUniverse (transparency cases only): an operation that selects a field on the interface
+// and again inside a fragment on ONE concrete type distinguishes a correctly merged fetch scope from
+// a narrowed one only if the data has a parent of ANOTHER type with that field non-null. The universe
+// is hash-defined, so the harness tries a few universe seeds and keeps the first under which a fresh
+// default engine answers with such a parent (which seed is kept depends only on the inputs).
+func (in *input) favourableUniverse() {
+	var q *request
+	for _, x := range in.ops {
+		if x.TwinScopedTo != "" {
+			q = x
+			break
+		}
+	}
+	if q == nil {
+		return
+	}
+	base := in.u.Seed
+	for t := uint64(0); t < 8; t++ {
+		in.u.Seed = base + t
+		g, err := fedRig(in, 0)
+		if err != nil {
+			break
+		}
+		o := execute(g, q, true, false)
+		g.Close()
+		if o.Err != "" || o.Panic != "" {
+			break
+		}
+		v, err := ref.DecodeJSON([]byte(o.Raw))
+		if err != nil {
+			break
+		}
+		m, _ := v.(map[string]any)
+		d, _ := m["data"].(map[string]any)
+		var items []any
+		switch x := d["tw"].(type) {
+		case []any:
+			items = x
+		case map[string]any:
+			items = []any{x}
+		}
+		for _, it := range items {
+			if o, ok := it.(map[string]any); ok && o["__typename"] != q.TwinScopedTo && o[q.TwinField] != nil {
+				in.favourable = true
+				in.ident[1] = in.u.Seed
+				return
+			}
+		}
+	}
+	in.u.Seed = base
 }
 
 // addDirectiveVariable puts @include(if: $tb) or @skip(if: $tb), with a fresh variable $tb: Boolean!,
@@ -374,10 +485,10 @@ func amplify(r *rand.Rand, doc *gen.Doc) {
 // where A and B are two possible types of the abstract field that both have a field f of the same
 // composite type: the two branches need the same follow-up fetch at the same response path, which
 // is what the fetch de-duplication stage removes. nil when the schema has no such shape.
-func twinFragments(r *rand.Rand, s *gen.Schema) *gen.Sel {
+func twinFragments(r *rand.Rand, s *gen.Schema) (sel *gen.Sel, scopedTo, field string) {
 	q := s.Type(s.Query)
 	if q == nil {
-		return nil
+		return nil, "", ""
 	}
 	type cand struct {
 		root *gen.Field
@@ -400,6 +511,23 @@ func twinFragments(r *rand.Rand, s *gen.Schema) *gen.Sel {
 			continue
 		}
 		pts := s.PossibleTypes(rf.Type.NamedType())
+		// the field selected directly on the interface AND again inside a fragment on one concrete type:
+		// an unscoped and a type-scoped duplicate of the same follow-up fetch
+		if itd := s.Type(rf.Type.NamedType()); k == gen.Interface && itd != nil {
+			for _, fi := range itd.Fields {
+				if len(fi.Args) > 0 || s.KindOf(fi.Type.NamedType()) != gen.Object {
+					continue
+				}
+				for _, pt := range pts {
+					if td := s.Type(pt); td != nil {
+						if fb := td.Field(fi.Name); fb != nil && fb.Type.String() == fi.Type.String() && len(fb.Args) == 0 {
+							cands = append(cands, cand{rf, "", pt, fi})
+							cands = append(cands, cand{rf, "", pt, fi}) // (weighted: the rarer shape)
+						}
+					}
+				}
+			}
+		}
 		for i := 0; i < len(pts); i++ {
 			for j := i + 1; j < len(pts); j++ {
 				ta, tb := s.Type(pts[i]), s.Type(pts[j])
@@ -420,7 +548,7 @@ func twinFragments(r *rand.Rand, s *gen.Schema) *gen.Sel {
 		}
 	}
 	if len(cands) == 0 {
-		return nil
+		return nil, "", ""
 	}
 	c := cands[r.IntN(len(cands))]
 	target := s.Type(c.f.Type.NamedType())
@@ -431,7 +559,7 @@ func twinFragments(r *rand.Rand, s *gen.Schema) *gen.Sel {
 		}
 	}
 	if len(leaves) == 0 {
-		return nil
+		return nil, "", ""
 	}
 	branch := func(on string) *gen.Sel {
 		td := s.Type(on)
@@ -439,31 +567,30 @@ func twinFragments(r *rand.Rand, s *gen.Schema) *gen.Sel {
 			{Field: &gen.FieldSel{Name: c.f.Name, Def: td.Field(c.f.Name), Parent: on, Sel: gen.CloneSels(leaves)}},
 		}}}
 	}
+	first := branch
+	if c.a == "" {
+		first = func(string) *gen.Sel {
+			return &gen.Sel{Field: &gen.FieldSel{Name: c.f.Name, Def: c.f, Parent: c.root.Type.NamedType(), Sel: gen.CloneSels(leaves)}}
+		}
+	}
+	if c.a == "" {
+		scopedTo, field = c.b, c.f.Name
+	}
 	return &gen.Sel{Field: &gen.FieldSel{Alias: "tw", Name: c.root.Name, Def: c.root, Parent: s.Query, Sel: []*gen.Sel{
 		{Field: &gen.FieldSel{Name: "__typename", Parent: c.root.Type.NamedType()}},
-		branch(c.a), branch(c.b),
-	}}}
+		first(c.a), branch(c.b),
+	}}}, scopedTo, field
 }
 
 func (in *input) layoutDetail() map[string]any {
-	d := map[string]any{"supergraph": in.l.SuperSDL, "layout": in.l.Describe}
-	for _, sg := range in.l.Subgraphs {
+	d := map[string]any{"supergraph": in.superSDL, "layout": in.describe}
+	for _, sg := range in.subs {
 		d["sdl_"+sg.Name] = sg.SDL
 	}
 	return d
 }
 
-func (in *input) layoutHash() string {
-	// (Layout.Describe is a human-readable text built by ranging over maps: not part of the identity)
-	parts := []any{in.l.SuperSDL, in.u.Seed}
-	for _, sg := range in.l.Subgraphs {
-		meta, _ := json.Marshal(sg.Meta)
-		parts = append(parts, sg.Name, sg.SDL, meta)
-	}
-	fc, _ := json.Marshal(in.l.FieldConfigs)
-	parts = append(parts, fc)
-	return fw.HashKey(parts...)
-}
+func (in *input) layoutHash() string { return fw.HashKey(in.ident...) }
 
 // variants of a base request for the transparency histories.
 func (in *input) variants(r *rand.Rand, base *request) []*request {
@@ -599,15 +726,24 @@ func (in *input) variants(r *rand.Rand, base *request) []*request {
 // ---------------------------------------------------------------------------------------------
 // engines and observations
 
-func newGateway(in *input, mask int) (*fed.Gateway, error) {
+func newGateway(in *input, mask int) (*rig, error) { return in.mk(mask) }
+
+// applyOptions: the parts of an option set that are set on the engine configuration.
+func applyOptions(conf *engine.Configuration, mask int) {
+	if mask&2 != 0 {
+		conf.EnableMultiFetch()
+	}
+	if mask&4 != 0 {
+		conf.EnableScheduleFetches()
+	}
+	if mask&8 != 0 {
+		conf.VerifPlannerConfiguration().MinifySubgraphOperations = true
+	}
+}
+
+func fedRig(in *input, mask int) (*rig, error) {
 	gw, err := fed.NewGateway(in.l, in.superGql, in.u, fed.GatewayOptions{
-		MultiFetch:    mask&2 != 0,
-		ScheduleFetch: mask&4 != 0,
-		Configure: func(conf *engine.Configuration) {
-			if mask&8 != 0 {
-				conf.VerifPlannerConfiguration().MinifySubgraphOperations = true
-			}
-		},
+		Configure: func(conf *engine.Configuration) { applyOptions(conf, mask) },
 	})
 	if err != nil {
 		return nil, err
@@ -616,7 +752,7 @@ func newGateway(in *input, mask int) (*fed.Gateway, error) {
 		// replaces the option list the engine derived from its configuration: repeat those
 		gw.Engine.VerifSetPostProcessorOptions(postprocessOptions(mask)...)
 	}
-	return gw, nil
+	return &rig{Engine: gw.Engine, reset: gw.Transport.Reset, log: func() ([]reqRec, int, []string) { return canonReqs(gw.Transport.Log()) }, close: gw.Close}, nil
 }
 
 type reqRec struct {
@@ -660,6 +796,11 @@ func canonReqs(log []*fed.Request) ([]reqRec, int, []string) {
 		}
 		problems = append(problems, rq.Problems...)
 	}
+	sortReqs(out)
+	return out, nEnt, problems
+}
+
+func sortReqs(out []reqRec) {
 	sort.Slice(out, func(i, j int) bool {
 		a, b := out[i], out[j]
 		if a.Sub != b.Sub {
@@ -673,7 +814,6 @@ func canonReqs(log []*fed.Request) ([]reqRec, int, []string) {
 		}
 		return a.Body < b.Body
 	})
-	return out, nEnt, problems
 }
 
 func anyOfMap(m map[string]any) any {
@@ -685,10 +825,10 @@ func anyOfMap(m map[string]any) any {
 
 // execute runs one request on the gateway's engine. exclusive = nobody else uses this gateway now:
 // the transport log is reset before and read after.
-func execute(gw *fed.Gateway, q *request, exclusive, noRuntimeDedup bool) (o *obs) {
+func execute(gw *rig, q *request, exclusive, noRuntimeDedup bool) (o *obs) {
 	o = &obs{}
 	if exclusive {
-		gw.Transport.Reset()
+		gw.reset()
 	}
 	w := graphql.NewEngineResultWriter()
 	req := &graphql.Request{Query: q.Text, Variables: q.Vars}
@@ -721,7 +861,7 @@ func execute(gw *fed.Gateway, q *request, exclusive, noRuntimeDedup bool) (o *ob
 	}()
 	o.Raw = w.String()
 	if exclusive {
-		o.Reqs, o.NEnt, o.Problems = canonReqs(gw.Transport.Log())
+		o.Reqs, o.NEnt, o.Problems = gw.log()
 	}
 	return o
 }
@@ -879,6 +1019,16 @@ func classifyErr(msg string) string {
 // ---------------------------------------------------------------------------------------------
 
 func (p c09) Run(c *fw.Ctx, idx int) fw.Result {
+	if ord := idx - baseCases(c.Tier); ord >= 0 {
+		// multi-key determinism: option set by ordinal (0 = default), engines carry it in every
+		// second case, every third case is also recomputed in a new process
+		mask := (ord * 5) % 16
+		engineMask := 0
+		if ord%2 == 1 {
+			engineMask = mask
+		}
+		return runDetFamily(c, idx, "mk", mask, engineMask, ord%3 == 0)
+	}
 	switch caseKind(idx) {
 	case kindDet:
 		return runDet(c, idx)
